@@ -95,8 +95,11 @@ func main() {
 	srcEntry := flag.String("entry", "VerifRunSrc", "debug: entry for -src")
 	maxPathsFlag := flag.Int("maxpaths", 0, "debug: cap the number of paths per job")
 	noEvidence := flag.Bool("noevidence", false, "do not rewrite evidence/<id>.json (development only: seed trials)")
+	coverFlag := flag.Bool("cover", false, "development: report the blocks of the property's anchor files no explored path executed")
+	coverExtra := flag.String("coverfiles", "", "development: extra comma-separated files for -cover")
 	cpuprof := flag.String("cpuprofile", "", "write cpu profile")
 	flag.Parse()
+	coverOn = *coverFlag
 	if *cpuprof != "" {
 		f, _ := os.Create(*cpuprof)
 		pprof.StartCPUProfile(f)
@@ -364,6 +367,23 @@ func main() {
 					}
 				}
 				replayed++
+				if !rr.Reproduced && handled && job.StubNoRepro {
+					// second attempt: Sym declared natively by a configuration file instead of
+					// being replaced by literals (a literal can hide what needs a call)
+					if js, ok := symConfigJSON(vv.Witness); ok {
+						nat.SymJSON = js
+						vv.Witness["replay-mode"] = "config"
+						rr2, _ := prop.Custom(nat, job, &vv)
+						nat.SymJSON = ""
+						if rr2.Reproduced {
+							rr = rr2
+							rr.Cmd += "   # with .ti-config/zz_sym.json = " + js
+							vv.Witness["native-sym-config"] = js
+						} else {
+							delete(vv.Witness, "replay-mode")
+						}
+					}
+				}
 				if rr.Reproduced {
 					rep.Model, rep.Witness, rep.Msg = vv.Model, vv.Witness, vv.Msg
 					v = vv
@@ -483,6 +503,13 @@ func main() {
 		os.WriteFile(filepath.Join("/verif/evidence", prop.ID+".json"), b, 0o644)
 	}
 	fmt.Printf("%s %s: paths=%d queries=%d unsat=%d classes=%d violations=%d wall=%.1fs exit=%d\n", prop.ID, *tier, totalPaths, totalQueries, totalUnsat, len(reports), violations, time.Since(t0).Seconds(), exit)
+	if coverOn {
+		var extra []string
+		if *coverExtra != "" {
+			extra = strings.Split(*coverExtra, ",")
+		}
+		coverReport(prog, prop.ID, extra)
+	}
 	nat.Close()
 	pprof.StopCPUProfile()
 	os.Exit(exit)
@@ -580,7 +607,7 @@ func translatorValidation(prog *ssa.Program, nat *Native, k int, seed int64, nw 
 				name := "./" + filepath.Base(f)
 				natOut, _, _ := nat.RunTi(map[string]string{filepath.Base(f): string(b)}, []string{name}, "")
 				// the 500 ms watchdog may fire spuriously while all cores are busy: retry
-				for try := 0; try < 4 && strings.TrimSpace(natOut) == "timeout"; try++ {
+				for try := 0; try < 4 && isTimeoutOut(natOut); try++ {
 					tvRetry.Lock()
 					natOut, _, _ = nat.RunTi(map[string]string{filepath.Base(f): string(b)}, []string{name}, "")
 					tvRetry.Unlock()
@@ -613,7 +640,7 @@ func translatorValidation(prog *ssa.Program, nat *Native, k int, seed int64, nw 
 						continue
 					}
 				case strings.HasPrefix(status, "budget"):
-					if strings.TrimSpace(natOut) != "timeout" {
+					if !isTimeoutOut(natOut) {
 						out <- item{name, fmt.Sprintf("DIFF %s: engine budget ; native %q", name, natOut)}
 						continue
 					}
